@@ -277,6 +277,7 @@ func init() {
 			{Name: "fields", QShards: 2, TShards: 8, Run: c11Fields},
 			{Name: "bytes", Run: c11Bytes},
 			{Name: "prefixes", Run: c11Prefixes},
+			{Name: "tokenlens", QShards: 2, TShards: 4, Run: c11TokenLens},
 			{Name: "parallel", Race: true, QShards: 2, TShards: 6, Run: codecParallel("fasta", "fastq", "sam", "samh", "bed", "newick")},
 			{Name: "histories", QShards: 2, TShards: 6, Run: codecHistories("fasta", "fastq", "sam", "samh", "bed", "newick")},
 			{Name: "fuzz", Thorough: true, Run: c11Fuzz},
@@ -624,6 +625,64 @@ func c11Prefixes(c *Ctx) {
 					}
 				}
 				k.Nontrivial([]byte(f), []byte(p))
+			})
+			idx++
+		}
+	}
+}
+
+// c11TokenLens: every place where a decoder parses a TOKEN (a number, a typed
+// tag value, a strand, a colour, a label, a branch length, a line that should
+// start with a marker) filled with tokens of EVERY length 0 … 300 from several
+// classes: digits (a number that overflows), letters, hex digits (odd and even
+// counts), UTF-8 continuation bytes, blanks, signs. Most of them are errors —
+// and the code that builds the error message (quoting, truncating, walking back
+// to a rune start) runs only then, with the offending token as its input; some
+// are accepted, and must then be fixed points.
+func c11TokenLens(c *Ctx) {
+	tpls := map[string][]string{
+		"fastq": {"T\nACGT\n+\n!!!!\n", "@r\nACGT\nT\n!!!!\n", "@r\nACGT\n+\nT\n", "@r\nT\n+\n!!!!\n@s\nA\n+\n!\n"},
+		"sam": {"q\tT\tr\t1\t2\t3M\t=\t4\t5\tACG\t!!!\n", "q\t0\tr\tT\t2\t3M\t=\t4\t5\tACG\t!!!\n", "q\t0\tr\t1\tT\t3M\t=\t4\t5\tACG\t!!!\n", "q\t0\tr\t1\t2\t3M\t=\tT\t5\tACG\t!!!\n", "q\t0\tr\t1\t2\t3M\t=\t4\tT\tACG\t!!!\n",
+			"q\t0\tr\t1\t2\t3M\t=\t4\t5\tACG\t!!!\tXX:i:T\n", "q\t0\tr\t1\t2\t3M\t=\t4\t5\tACG\t!!!\tXX:f:T\n", "q\t0\tr\t1\t2\t3M\t=\t4\t5\tACG\t!!!\tXX:H:T\n", "q\t0\tr\t1\t2\t3M\t=\t4\t5\tACG\t!!!\tXX:A:T\n",
+			"q\t0\tr\t1\t2\t3M\t=\t4\t5\tACG\t!!!\tXX:Z:T\n", "q\t0\tr\t1\t2\t3M\t=\t4\t5\tACG\t!!!\tXX:T:1\n", "q\t0\tr\t1\t2\t3M\t=\t4\t5\tACG\t!!!\tT\n", "q\t0\tr\t1\t2\t3M\t=\t4\t5\tACG\t!!!\tT:i:1\n", "q\t0\tT\n", "T\tT\tT\n"},
+		"bed":    {"c\tT\t2\n", "c\t1\tT\n", "c\t1\t2\tn\tT\n", "c\t1\t2\tn\t5\tT\n", "c\t1\t2\tn\t5\t+\tT\t9\n", "c\t1\t2\tn\t5\t+\t3\t9\tT\n", "c\t1\t2\tn\t5\t+\t3\t9\t1,2,3\tT\n", "c\t1\t2\tn\t5\t+\t3\t9\t1,2,3\t2\tT\t1,2\n", "c\t1\t2\tn\t5\t+\t3\t9\tT,2,3\n", "c\t1\t2\nc\t1\t2\tT\n"},
+		"newick": {"a:T;", "(a:T,b)c;", "(a,b)c:T;", "(a,b)T", "(a,b))T;", "(a,'T);", "(a:1:T);", "T(a);"},
+		"ncbi":   {"  A B\nA T 2\nB 3 4\n", "  A B\nA 1 2\nT 3 4\n", "  A T\nA 1 2\nB 3 4\n", "  A B\nA 1 2 T\nB 3 4\n", "#T\n  A B\nA 1 2\nB 3 4\n"},
+		"fasta":  {">a\nT\n>b\nAC\n", ">T\nAC\n"},
+	}
+	classes := []struct {
+		name  string
+		alpha string
+	}{{"digits", "0123456789"}, {"nines", "9"}, {"letters", "abcXYZ"}, {"hex digits", "0123456789abcdefABCDEF"}, {"continuation bytes", "\x80\x8f\xbf\xa9"}, {"lead bytes", "\xc3\xe2\xf0\xff"},
+		{"blanks", " "}, {"signs and points", "+-.eE"}, {"commas and digits", "1,"}, {"colons", ":"}, {"quotes", "'\""}}
+	idx := int64(0)
+	maxLen := c.N(300, 1200)
+	for _, f := range c11Formats {
+		for _, cl := range classes {
+			c.Case(idx, func(k *K) {
+				r := k.Rand()
+				for ti, tpl := range tpls[f] {
+					for l := 0; l <= maxLen; l++ {
+						if l > 130 && l%7 != int(k.Idx)%7 {
+							continue
+						}
+						tok := string(randSeq(r, []byte(cl.alpha), l))
+						x := []byte(strings.ReplaceAll(tpl, "T", tok))
+						k.Input("format", f)
+						k.Input("template", ti)
+						k.Input("token_class", cl.name)
+						k.Input("token_length", l)
+						k.Input("input", x)
+						decodeTotal(k, f, x)
+						k.Count("inputs_"+f, 1)
+						k.Count("token_length_inputs", 1)
+						k.Evals(1)
+						if k.Failed() {
+							return
+						}
+					}
+				}
+				k.Nontrivial([]byte(f), []byte(cl.name))
 			})
 			idx++
 		}
